@@ -177,6 +177,8 @@ class RawWorld:
         if self.real_side == 's':
             self.ep = RSocketServer(self.link.transports['s'], handler_factory=lambda: h,
                                     fragment_size_bytes=self.frag, **self.server_kwargs)
+            from .pair import instrument_endpoint_queue
+            instrument_endpoint_queue(self.world, self.ep, self.real_side)
             if send_setup:
                 self.peer.send(setup_frame())
         else:
@@ -189,6 +191,8 @@ class RawWorld:
                       max_lifetime_period=timedelta(seconds=self.max_lifetime))
             kw.update(self.client_kwargs)
             self.ep = RSocketClient(provider(), handler_factory=lambda: h, fragment_size_bytes=self.frag, **kw)
+            from .pair import instrument_endpoint_queue
+            instrument_endpoint_queue(self.world, self.ep, self.real_side)
             if connect:
                 await self.ep.connect()
         return self
